@@ -349,12 +349,16 @@ Definition save_body (s : sstate) : sstate * list out :=
      (repaired defect K3) *)
   (set_inflight (set_dirty s fempty false) (Some (dump, dl)), [MetaSave dump dl]).
 
-(* when a save returns, the next waiting Save() takes the lock and runs its body *)
-Definition next_queued (s : sstate) : sstate * list out :=
-  match s_queued s with
+(* when a save returns, the waiting Save() calls take the lock one after the other: one that finds the flag
+   down returns at once (NoSave); the first that finds it up runs its body, the others keep waiting *)
+Fixpoint drain (q : nat) (s : sstate) : sstate * list out :=
+  match q with
   | O => (s, [])
-  | S q => save_body (set_queued s q)
+  | S q' =>
+      if s_any_dirty s then save_body (set_queued s q')
+      else let '(s', outs) := drain q' (set_queued s q') in (s', NoSave :: outs)
   end.
+Definition next_queued (s : sstate) : sstate * list out := drain (s_queued s) s.
 
 Definition step (s : sstate) (o : op) : sstate * list out :=
   if s_failed s then (s, [Ignored]) else
@@ -413,8 +417,8 @@ Definition step (s : sstate) (o : op) : sstate * list out :=
       match s_inflight s with
       | None => (s, [Ignored])
       | Some _ =>
-          (* the flag is read before the lock is taken *)
-          if negb (s_any_dirty s) then (s, [NoSave]) else (set_queued s (S (s_queued s)), [])
+          (* the save lock is taken before the flag is read: it waits (repaired defect K9) *)
+          (set_queued s (S (s_queued s)), [])
       end
   | SaveWrite vb =>
       match s_inflight s with
